@@ -233,3 +233,14 @@ func (s *scheduler) runMain(i *interpreter, fn *ssa.Function, args []value) {
 }
 
 var _ sync.Mutex
+
+// othersEnabled reports whether any goroutine other than the running one can
+// make progress.
+func (s *scheduler) othersEnabled() bool {
+	for _, g := range s.gs {
+		if g != s.cur && g.enabled() {
+			return true
+		}
+	}
+	return false
+}
